@@ -508,6 +508,10 @@ def classify(cexs):
         shape = c["shape"]
         if fp is not None and (dd.startswith(fp) or fp.startswith(dd)):
             role = "is_partial_match:prefix-comparison-counts-bytes-as-characters" if multibyte else "is_partial_match:prefix-comparison"
+        elif multibyte and ("LITQ" in shape or "LITS" in shape) and optional_after_multibyte(shape):
+            # (tested before the escape roles: a regex can contain an escaped character *and* an optional literal after a
+            # multi-byte character; the wrongly kept optional literal is what makes the prefix wrong then)
+            role = "get_fixed_prefix:optional-literal-not-removed-after-multibyte-char"
         elif b"\\\\" in body:
             role = "get_fixed_prefix:escaped-backslash-dropped"
         elif re.search(rb"\\.", body, re.S) and re.search(rb"\\.[^\\]*?(\[|\(|\.\*|\?|\*)", body, re.S):
@@ -519,6 +523,19 @@ def classify(cexs):
         g = groups.setdefault(role, {"role": role, "examples": []})
         g["examples"].append(c)
     return list(groups.values())
+
+
+def optional_after_multibyte(shape):
+    """the first optional literal (c? / c*) of the shape comes after a two-byte character and no wildcard fragment precedes it"""
+    seen_u2 = False
+    for f in shape:
+        if f == "U2":
+            seen_u2 = True
+        elif f in ("LITQ", "LITS"):
+            return seen_u2
+        elif f not in ("PLAIN", "ESC", "SEP"):
+            return False
+    return False
 
 
 def confirm(o, groups, ctx):
